@@ -23,11 +23,16 @@ RULE = ('factor cases: one per (tabulated element, point family) - every table n
         'form; about 15 % hold one element in several charge states and/or isotopes: neutral + ion, two ions, '
         'isotope + ion of another isotope, the same atom twice) x density x energy with all relations, plus a '
         'fixed energy / wavelength array shared by all compounds of a worker; mirror cases: energy x angle grids '
-        'with roughness; f0 cases: each of the 211 coefficient entries and every element/ion of the table, all on '
+        'with roughness; density-route cases: one compound (a third of them one-atom formulas) as string, dict, '
+        'atom, Formula without density and Formula carrying its own density (from the @, @..i, @..n tags, '
+        'density= / natural_density= at construction, the attribute, a copy, the one-element default), each with '
+        'density=, with natural_density= and (when it carries one) with no keyword, through xray_sld, '
+        'index_of_refraction and mirror_reflectivity; f0 cases: each of the 211 coefficient entries and every element/ion of the table, all on '
         'one shared Q array; vector calls are repeated with the same array object and with the object refilled '
         'in place.  distinct = distinct (element, '
         'table segment) pairs compared against the interpolation, distinct (atom-key set, energy bin of 0.01 decade) '
-        'pairs for compounds and mirrors, distinct coefficient entries and (Z, charge) pairs for f0; a point is '
+        'pairs for compounds and mirrors, distinct (compound form, density source, isotopic, charged, one-atom) '
+        'classes for density routes, distinct coefficient entries and (Z, charge) pairs for f0; a point is '
         'non-trivial only if a value was compared with the reference (points inside a non-monotone table window '
         'or with an untabulated f1 are counted separately and do not count)')
 TECHNIQUE = ('runtime monitoring: reference-model monitor (independent table readers, own interpolation, documented '
@@ -38,7 +43,9 @@ TECHNIQUE = ('runtime monitoring: reference-model monitor (independent table rea
 LEVEL_TEXT = ('Every node of all 92 scattering-factor tables, segment midpoints, absorption-edge neighbourhoods and '
               'out-of-range energies are pushed through the public calls and compared with an independent reader and '
               'interpolator; random compounds, refraction indices, mirror grids and all 211 form-factor entries are '
-              'compared with the documented equations.  Nodes and f0 entries are swept completely; energies between '
+              'compared with the documented equations; every way of handing a compound and its density to the calculators '
+              '(string, dict, atom, Formula with and without its own density x density= / natural_density= / none) is '
+              'compared with the density the documented rules select.  Nodes and f0 entries are swept completely; energies between '
               'nodes, compounds and grids are finite samples.')
 LEVEL_NOTE = ('Trusted: pvmon/ref/xray.py and pvmon/ref/masses.py (readers, bisect interpolation, sums), the embedded '
               'data files as specification, periodictable.constants cross-pinned to CODATA at 1e-6.')
@@ -51,7 +58,11 @@ ASSUMPTIONS = ['the .nff rows and f0_WaasKirf.dat coefficients are the specifica
                'tolerance: 1e-10 of the bracketing ordinates plus the change of the interpolant over a few ulp of the '
                'energy (keV/eV and energy/wavelength conversions round)',
                'atom masses from the independent reader pvmon/ref/masses.py; an ion weighs its atom less q electrons',
-               'the natural_density= route for formulas containing ions is judged by C12 (finding D10), not here',
+               'the natural mass ratio of the natural_density= route (every isotope replaced by its element, ion '
+               'charges kept) is computed from pvmon/ref/masses.py as in C12; it is judged in the density-route cases, '
+               'the compound cases only observe it for formulas with ions',
+               'density sources are never combined (density= together with natural_density= is not documented); an '
+               'explicit keyword wins over the density a Formula object carries, as documented for formula()',
                'a query leaves its array / list / dict arguments unchanged (a changed argument makes the results '
                'of the caller\'s later calls depend on history, which the scalar/vector and table clauses exclude)']
 
@@ -341,6 +352,12 @@ def finish(ctx):
     ctx.require('compound.repeated_element.isotopes', 20, 'compounds holding two isotopes of one element')
     ctx.require('eval.repeat_same_object', 1000, 'calls repeated with the same array object')
     ctx.require('reuse.f0_q_grid_calls', 300, 'one Q array handed to many f0 calls')
+    for form in ROUTE_FORMS_ANY + ROUTE_FORMS_MULTI + ROUTE_FORMS_SINGLE:
+        for kwname in ROUTE_KEYWORDS + (() if form in ('string', 'dict') + ROUTE_FORMS_MULTI else ('own',)):
+            ctx.require('route.%s.%s' % (form, kwname), 3,
+                        'every compound form must meet every density source (density=, natural_density=, its own)')
+    ctx.require('route.cases.natural_ratio_differs_from_1', 20, 'density-route compounds with isotopes')
+    ctx.require('route.cases.isotope_ion', 5, 'density-route compounds with isotope ions')
 
 
 # --------------------------------------------------------------------------
@@ -393,6 +410,8 @@ def generate(ctx):
         yield 'compound', gen_compound(ctx.rng, dt=(n % 25 == 7))
     for n in range(ctx.scale(100, 500)):
         yield 'mirror', gen_mirror(ctx.rng)
+    for n in range(ctx.scale(40, 200)):
+        yield 'density_route', gen_route(ctx.rng, single=(n % 3 == 1))
 
 
 def _render(key, alias):
@@ -510,6 +529,39 @@ def gen_mirror(rng):
     rng.shuffle(angles)
     return {'atoms': atoms, 'density': 10 ** rng.uniform(-2, 1.4), 'energies': energies, 'angles': angles,
             'roughness': rng.choice([0, 0, 1, 3, 10, 10 * rng.random()]), 'by': rng.choice(['energy', 'wavelength'])}
+
+
+def _density_value(rng):
+    """A density that a formula string can carry after '@' (fixed notation, no exponent)."""
+    return float('%.4g' % 10 ** rng.uniform(-2, 1.4))
+
+
+def gen_route(rng, single=False):
+    """One compound (about a third are one-atom formulas, which have a default density), an energy, and three
+    different densities: the one the Formula object is built with, one for density= and one for natural_density=.
+    Isotopes and isotope ions are frequent so that the natural mass ratio matters."""
+    pt = _state['pt']
+    atoms = gen_atoms(rng, nmax=1 if single else 4, repeat=False if single else None)
+    for a in atoms:
+        el = pt.elements[a[0]]
+        if not a[1] and el.isotopes and rng.random() < 0.4:
+            a[1] = rng.choice(el.isotopes)
+            if a[0] == 1 and a[1] in (2, 3):     # ions of D and T are finding D28's subject: not here
+                a[2] = 0
+    if single and rng.random() < 0.5:
+        atoms[0][3] = 1
+    own = _density_value(rng)
+    rho = own
+    while abs(rho - own) < 0.05 * own:
+        rho = 10 ** rng.uniform(-3, 1.5)
+    rhon = own
+    while abs(rhon - own) < 0.05 * own or abs(rhon - rho) < 0.05 * rho:
+        rhon = 10 ** rng.uniform(-3, 1.5)
+    energy = gen_energy(rng, atoms) if rng.random() < 0.15 else 10 ** rng.uniform(math.log10(0.03), math.log10(30))
+    return {'atoms': atoms, 'own': own, 'density': rho, 'natural_density': rhon, 'energy': energy,
+            'alias': rng.random() < 0.5,
+            'angles': [10 ** rng.uniform(-2, math.log10(90)) for _ in range(rng.randint(1, 4))],
+            'roughness': rng.choice([0, 0, 2, 5 * rng.random()])}
 
 
 # --------------------------------------------------------------------------
@@ -1188,6 +1240,177 @@ def _compound_grids(ctx, bud, case, comp, obj, name, rho):
         _repeat_call(ctx, bud, text, gg, xsf.xray_sld(obj, density=rho, **{kwname: arr}))
 
 
+# --------------------------------------------------------------------------
+# checks: which density the calculators use
+# --------------------------------------------------------------------------
+def _fixed(x):
+    """Fixed-notation text of a density for the '@' tag of a formula string."""
+    s = ('%.10f' % x).rstrip('0')
+    return s + '0' if s.endswith('.') else s
+
+
+ROUTE_KEYWORDS = ('density', 'natural_density')
+ROUTE_FORMS_ANY = ('string', 'dict', 'formula.tag', 'formula.tag_i', 'formula.tag_n', 'formula.kw_density',
+                   'formula.kw_natural', 'formula.attribute', 'formula.copy')
+ROUTE_FORMS_MULTI = ('formula.no_density', 'formula.no_density.parsed')
+ROUTE_FORMS_SINGLE = ('formula.one_element_default', 'formula.one_element_default.parsed', 'atom')
+
+
+def _route_forms(case, comp, text):
+    """[(label, compound object, density the object carries by construction or None or 'default')].
+    Every Formula is built through the public constructors only."""
+    pt = _state['pt']
+    own = case['own']
+    R = _natural_ratio(comp)
+    tag = _fixed(own)
+    single = len(comp) == 1
+    forms = [('string', text, None), ('dict', _build(comp), None),
+             ('formula.tag', pt.formula(text + '@' + tag), own),
+             ('formula.tag_i', pt.formula(text + '@' + tag + 'i'), own),
+             ('formula.tag_n', pt.formula(text + '@' + tag + 'n'), own / R),
+             ('formula.kw_density', pt.formula(_build(comp), density=own), own),
+             ('formula.kw_natural', pt.formula(text, natural_density=own), own / R),
+             ('formula.copy', pt.formula(pt.formula(_build(comp), density=own)), own)]
+    f = pt.formula(_build(comp))
+    f.density = own
+    forms.append(('formula.attribute', f, own))
+    if single:
+        forms.append(('formula.one_element_default', pt.formula(_build(comp)), 'default'))
+        forms.append(('formula.one_element_default.parsed', pt.formula(text), 'default'))
+        (key, n), = comp.items()
+        if n == 1:
+            forms.append(('atom', _atom(key), 'default'))
+    else:
+        forms.append(('formula.no_density', pt.formula(_build(comp)), None))
+        forms.append(('formula.no_density.parsed', pt.formula(text), None))
+    return forms
+
+
+def _natural_ratio(comp):
+    """Mass the compound would have with every isotope replaced by its natural element (ion charges
+    kept) over its actual mass, from the reference's own mass tables."""
+    xr = _state['xr']
+    nat = {}
+    for (Z, _A, q), n in comp.items():
+        nat[(Z, 0, q)] = nat.get((Z, 0, q), 0) + n
+    return xr.formula_mass(nat) / xr.formula_mass(comp)
+
+
+def _formula_picture(obj):
+    """(density, {key: count}) of a Formula object, None for other compound forms."""
+    from .. import atoms
+    if not hasattr(obj, 'structure'):
+        return None
+    return obj.density, sorted((atoms.key(a), n) for a, n in obj.atoms.items())
+
+
+def check_density_route(ctx, case):
+    """Which density enters N = density N_A / M: an explicit density= is the density, an explicit
+    natural_density= is converted with the natural mass ratio, and either wins over the density a Formula
+    object already carries ('@' tag, density= / natural_density= at construction, attribute, copy, the
+    one-element default); without a keyword the object's own density is used.  Judged on xray_sld and
+    index_of_refraction against the reference and on mirror_reflectivity against the same call with a plain
+    dict and density= (its formula is not part of the property, the density it uses is)."""
+    import numpy as np
+    xr, xsf = _state['xr'], _state['xsf']
+    comp = _comp_keys(case['atoms'])
+    E = case['energy']
+    text = ''.join(_render(tuple(a[:3]), case['alias']) + _count_text(a[3]) for a in case['atoms'])
+    R = _natural_ratio(comp)
+    bud = _Budget(ctx)
+    isotopic, charged = any(k[1] for k in comp), any(k[2] for k in comp)
+    ctx.count('route.cases')
+    if abs(R - 1) > 1e-9:
+        ctx.count('route.cases.natural_ratio_differs_from_1')
+    if any(k[1] and k[2] for k in comp):
+        ctx.count('route.cases.isotope_ion')
+    wl = xr.wavelength(E) if 0 < E < math.inf else None
+    boundary = any(abs(E - b) <= 1e-9 * b for k in comp for b in (xr.table(k[0]).emin, xr.table(k[0]).emax))
+    ang = np.array(case['angles'], dtype=float)
+    earr = np.array([E])
+    plain = _build(comp)
+    effective = {'density': case['density'], 'natural_density': case['natural_density'] / R}
+    mirror_base = {}
+
+    def judge(label, obj, kwname, d_eff, kw, how):
+        """One compound form with one density source; d_eff is the density the documented rules select."""
+        ref = xr.sld(comp, d_eff, E)
+        call = '%s, %s' % (how, ', '.join('%s=%r' % kv for kv in kw.items()))
+        got = xsf.xray_sld(obj, energy=E, **kw)
+        ctx.distinct_case(('route', label, kwname, isotopic, charged, len(comp) == 1))
+        ctx.count('route.%s.%s' % (label, kwname))
+        _cmp_sld(ctx, bud, got, ref, 'xray_sld(%s, energy=%r) [density in effect %r g/cm^3: %s]'
+                 % (call, E, d_eff, _why(kwname, R)), what='route_sld', form=label, keyword=kwname)
+        if bud.spent or wl is None or boundary:
+            return
+        # refraction, alternately by energy= and by wavelength=
+        by_wl = (len(label) + len(kwname)) % 2 == 1
+        r = xr.sld(comp, d_eff, E, ulps=64)
+        if r.inside and not r.excluded and r.rho_defined:
+            nv = complex(xsf.index_of_refraction(obj, **dict(kw, **({'wavelength': wl} if by_wl else {'energy': E}))))
+            delta, beta = xr.refraction(r.rho, r.irho, wl)
+            f = wl ** 2 / (2 * math.pi) * 1e-6
+            ctx.evaluated(2, 'route_refraction')
+            if not (abs(-nv.imag - beta) <= f * r.tol_irho + 1e-12 * abs(beta) + 2e-16 and
+                    abs((1 - nv.real) - delta) <= f * r.tol_rho + 1e-12 * abs(delta) + 4e-16 * max(1.0, abs(delta))):
+                bud.violation('index_of_refraction(%s, %s=%r) = %r, 1 - lambda^2/(2 pi)(rho + i irho)1e-6 at density '
+                              '%r g/cm^3 (%s) = %r' % (call, 'wavelength' if by_wl else 'energy', wl if by_wl else E, nv,
+                                                       d_eff, _why(kwname, R), complex(1 - delta, -beta)),
+                              kind='route_refraction', form=label, keyword=kwname)
+                return
+        # reflectivity: the same numbers as a plain dict with density=<the density in effect>
+        if kwname not in mirror_base:
+            mirror_base[kwname] = np.asarray(xsf.mirror_reflectivity(plain, density=d_eff, energy=earr, angle=ang,
+                                                                     roughness=case['roughness']))
+        base = mirror_base[kwname]
+        got = np.asarray(xsf.mirror_reflectivity(obj, energy=earr, angle=ang, roughness=case['roughness'], **kw))
+        ctx.evaluated(1, 'route_mirror')
+        if got.shape != base.shape or not np.allclose(got, base, rtol=1e-7, atol=1e-12, equal_nan=True):
+            bud.violation('mirror_reflectivity(%s, energy=[%r], angle=%r, roughness=%r) = %r, but %r for the same '
+                          'atoms as a dict with density=%r (%s)'
+                          % (call, E, case['angles'], case['roughness'], got.ravel().tolist(), base.ravel().tolist(),
+                             d_eff, _why(kwname, R)), kind='route_mirror', form=label, keyword=kwname)
+
+    for label, obj, carried in _route_forms(case, comp, text):
+        how = ('%r' % obj if isinstance(obj, str) else
+               '{%s}' % text if label == 'dict' else '<%s of %s>' % (label, text))
+        before = _formula_picture(obj)
+        if before is not None:
+            if before[0] is None and carried == 'default':
+                ctx.count('route.one_element_without_tabulated_density')
+                carried = None
+            elif carried == 'default':
+                carried = before[0]       # the public attribute; what the default is, is C12's subject
+            how = '<%s of %s, own density %r>' % (label, text, before[0])
+        elif carried == 'default':
+            carried = _atom(next(iter(comp))).density
+            how = '<atom %s, density %r>' % (obj, carried)
+        for kwname in ROUTE_KEYWORDS:
+            judge(label, obj, kwname, effective[kwname], {kwname: case[kwname]}, how)
+            if bud.spent:
+                return
+        if carried is not None and not isinstance(obj, (str, dict)):
+            judge(label, obj, 'own', carried, {}, how)
+            mirror_base.pop('own', None)
+        if before is not None:
+            ctx.evaluated(1, 'route_formula_unchanged')
+            after = _formula_picture(obj)
+            if after != before:
+                bud.violation('the Formula object %s handed to the x-ray calculators was changed by the calls: '
+                              'density and atoms %r before, %r after' % (how, before, after),
+                              kind='route_formula_changed', form=label)
+        if bud.spent:
+            return
+
+
+def _why(kwname, R):
+    if kwname == 'density':
+        return 'the density= keyword'
+    if kwname == 'natural_density':
+        return 'the natural_density= keyword divided by the natural mass ratio %r' % R
+    return 'the density the object carries, no keyword given'
+
+
 def check_mirror(ctx, case):
     """Thick-mirror reflectivity lies in [0, 1] wherever the index of refraction is finite."""
     import numpy as np
@@ -1416,7 +1639,7 @@ def check_constants(ctx, case):
 
 
 CHECKS = {'factors': check_factors, 'ions': check_ions, 'element_sld': check_element_sld,
-          'compound': check_compound, 'mirror': check_mirror, 'f0_entry': check_f0_entry,
+          'compound': check_compound, 'mirror': check_mirror, 'density_route': check_density_route, 'f0_entry': check_f0_entry,
           'f0_atoms': check_f0_atoms, 'constants': check_constants}
 
 
